@@ -63,11 +63,11 @@ func init() {
 			c.Eval()
 			c.Trans(1)
 			fa := strings.Fields(la)
-			if len(fa) == 3 {
+			if len(fa) >= 3 {
 				verdicts[fa[1]]++
 			}
 			if la == lb {
-				if len(fa) == 3 && fa[1] == "panic" {
+				if len(fa) >= 3 && fa[1] == "panic" {
 					idx, _ := strconv.ParseInt(fa[0], 10, 64)
 					da, _ := c17Detail(c.Tier, idx)
 					c.Violation("C17|panic-in-both-builds", da, int(idx), c17Replay{"proc-c17", idx, c.Tier})
@@ -76,18 +76,25 @@ func init() {
 			}
 			fb := strings.Fields(lb)
 			idx, _ := strconv.ParseInt(fa[0], 10, 64)
-			da, db := c17Detail(c.Tier, idx)
-			var ra struct{ Doc, Mode string }
-			json.Unmarshal([]byte(da), &ra)
 			class := "output-differs"
-			if len(fa) == 3 && len(fb) == 3 && fa[1] != fb[1] {
+			if len(fa) >= 3 && len(fb) >= 3 && fa[1] != fb[1] {
 				class = fmt.Sprintf("decision-differs|default=%s tinywasm=%s", fa[1], fb[1])
 			}
-			blank := "nonblank"
-			if strings.TrimSpace(ra.Doc) == "" {
-				blank = "blank-input"
+			mode, blank := "?", "nonblank"
+			if len(fa) >= 5 {
+				mode, blank = fa[3], fa[4]
 			}
-			c.Violation("C17|"+class+"|"+ra.Mode+"|"+blank, fmt.Sprintf("default : %s\ntinywasm: %s", da, db), len(ra.Doc), c17Replay{"proc-c17", idx, c.Tier})
+			sig := "C17|" + class + "|" + mode + "|" + blank
+			detail := fmt.Sprintf("case %d (details only for the first cases of a signature)", idx)
+			size := 1 << 30
+			if c.R.ViolCount[sig] < 3 {
+				da, db := c17Detail(c.Tier, idx)
+				var ra struct{ Doc string }
+				json.Unmarshal([]byte(da), &ra)
+				detail = fmt.Sprintf("default : %s\ntinywasm: %s", da, db)
+				size = len(ra.Doc)
+			}
+			c.Violation(sig, detail, size, c17Replay{"proc-c17", idx, c.Tier})
 		}
 		ca.Wait()
 		cb.Wait()
